@@ -194,8 +194,16 @@ func (descriptor *BundleDescriptor) UpdateBundleAge() (uint64, error) {
 		return 0, fmt.Errorf("no bundle age block exists")
 	}
 
+	// The reception time read back from the store is wall clock time only. A clock which was set back meanwhile, e.g.,
+	// a node without a real-time clock after its reboot, results in a negative residence time; as an unsigned number,
+	// this would be an age of millions of years.
+	residence := time.Since(descriptor.Timestamp).Milliseconds()
+	if residence < 0 {
+		residence = 0
+	}
+
 	age := ageBlock.Value.(*bpv7.BundleAgeBlock)
-	return age.Increment(uint64(time.Since(descriptor.Timestamp).Milliseconds())), nil
+	return age.Increment(uint64(residence)), nil
 }
 
 func (descriptor BundleDescriptor) String() string {
